@@ -1702,6 +1702,9 @@ func parseOpenSSHPrivateKey(key []byte, decrypt openSSHDecryptFunc) (crypto.Priv
 
 		pk.Precompute()
 
+		if err := checkOpenSSHKeyPublicKey(w.PubKey, &pk.PublicKey); err != nil {
+			return nil, err
+		}
 		return pk, nil
 	case KeyAlgoED25519:
 		var key openSSHEd25519PrivateKey
@@ -1719,6 +1722,16 @@ func parseOpenSSHPrivateKey(key []byte, decrypt openSSHDecryptFunc) (crypto.Priv
 
 		pk := ed25519.PrivateKey(make([]byte, ed25519.PrivateKeySize))
 		copy(pk, key.Priv)
+		// The private key is the seed followed by the public key; both
+		// copies of the public key must be the one the seed generates,
+		// otherwise signatures made with the key do not verify.
+		derived := ed25519.NewKeyFromSeed(pk.Seed()).Public().(ed25519.PublicKey)
+		if !bytes.Equal(derived, pk[ed25519.SeedSize:]) || !bytes.Equal(derived, key.Pub) {
+			return nil, errors.New("ssh: public key does not match private key")
+		}
+		if err := checkOpenSSHKeyPublicKey(w.PubKey, derived); err != nil {
+			return nil, err
+		}
 		return &pk, nil
 	case KeyAlgoECDSA256, KeyAlgoECDSA384, KeyAlgoECDSA521:
 		var key openSSHECDSAPrivateKey
@@ -1756,17 +1769,39 @@ func parseOpenSSHPrivateKey(key []byte, decrypt openSSHDecryptFunc) (crypto.Priv
 			return nil, errors.New("ssh: public key does not match private key")
 		}
 
-		return &ecdsa.PrivateKey{
+		pk := &ecdsa.PrivateKey{
 			PublicKey: ecdsa.PublicKey{
 				Curve: curve,
 				X:     X,
 				Y:     Y,
 			},
 			D: key.D,
-		}, nil
+		}
+		if err := checkOpenSSHKeyPublicKey(w.PubKey, &pk.PublicKey); err != nil {
+			return nil, err
+		}
+		return pk, nil
 	default:
 		return nil, errors.New("ssh: unhandled key type")
 	}
+}
+
+// checkOpenSSHKeyPublicKey reports an error if the public key stored in the
+// unencrypted part of an OpenSSH private key file is not the public key of the
+// private key it contains. OpenSSH rejects such files as well.
+func checkOpenSSHKeyPublicKey(stored []byte, pub crypto.PublicKey) error {
+	want, err := NewPublicKey(pub)
+	if err != nil {
+		return err
+	}
+	got, err := ParsePublicKey(stored)
+	if err != nil {
+		return fmt.Errorf("ssh: failed to parse embedded public key: %v", err)
+	}
+	if !bytes.Equal(got.Marshal(), want.Marshal()) {
+		return errors.New("ssh: public key does not match private key")
+	}
+	return nil
 }
 
 func marshalOpenSSHPrivateKey(key crypto.PrivateKey, comment string, encrypt openSSHEncryptFunc) (*pem.Block, error) {
